@@ -2,7 +2,8 @@
 //! (first-generation lexer), so that the observation can be compared with the verdict of spec/SyntaxRules.tla.
 //!
 //!   k    class-relevant kind of every token of the real stream (Debug name of the lexer's token; an identifier
-//!        spelled `return` is "IdReturn", the type keyword `void` "TypeVoid", a lexical error "Error")
+//!        spelled `return` is "IdReturn", the type keyword `void` "TypeVoid", a string literal whose bytes are not UTF-8
+//!        "StringLiteralNotUtf8", a lexical error "Error")
 //!   ap   parse-stage diagnostics of the first generation: every poison the parser put into the tree
 //!        [code, ti, te]   ti = index (1-based) of the first token that ends after the start of the diagnostic's span
 //!        (n + 1: at the end of the file), te = index of the last token that starts before its end
@@ -53,6 +54,7 @@ pub fn kind_of(t: &Result<Token, penne::alpha::lexer::Error>) -> String {
         Err(_) => "Error".to_string(),
         Ok(Token::Identifier(name)) if name == "return" => "IdReturn".to_string(),
         Ok(Token::Type(penne::alpha::value_type::ValueType::Void)) => "TypeVoid".to_string(),
+        Ok(Token::StringLiteral { bytes }) if std::str::from_utf8(bytes).is_err() => "StringLiteralNotUtf8".to_string(),
         Ok(tok) => {
             let d = format!("{tok:?}");
             let end = d.find(|c: char| !c.is_ascii_alphanumeric()).unwrap_or(d.len());
